@@ -68,7 +68,9 @@ fn arb_case(max_ops: usize) -> impl Strategy<Value = Case> {
         proptest::collection::vec((0u8..3).prop_map(|lane| Act::SetV { lane, v: 0 }), 1..5),
         0..4,
     );
-    (arb_params(), any::<bool>(), progs)
+    // on_set(v0)/on_set(v1) fail (non-fatally) for a third / half of the values in 2 of 5 cases
+    let fail_set = prop_oneof![3 => Just(0u8), 1 => Just(3u8), 1 => Just(2u8)];
+    (arb_params(), (any::<bool>(), fail_set), progs)
         .prop_flat_map(move |(params, cascade, programs)| {
             let n = programs.len();
             (
@@ -78,7 +80,7 @@ fn arb_case(max_ops: usize) -> impl Strategy<Value = Case> {
                 proptest::collection::vec(arb_op(n), 1..max_ops),
             )
         })
-        .prop_map(|(params, cascade, mut programs, mut ops)| {
+        .prop_map(|(params, (cascade, fail_set_mod), mut programs, mut ops)| {
             // unique values: a body identifies one position of a lane's history
             let mut next = 1i64;
             for p in programs.iter_mut() {
@@ -107,6 +109,7 @@ fn arb_case(max_ops: usize) -> impl Strategy<Value = Case> {
                 flags: AgentFlags {
                     cascade_value: cascade,
                     cascade_map: false,
+                    fail_set_mod,
                 },
                 programs,
                 ops: all,
@@ -294,6 +297,11 @@ fn check(case: &Case) -> Verdict {
     v.class_if(sets >= 3, "sets>=3");
     v.class_if(obs.remotes.len() >= 2, "remotes>=2");
     v.class_if(case.flags.cascade_value, "cascade");
+    v.class_if(
+        case.flags.fail_set_mod != 0
+            && obs.trace.iter().any(|(_, e)| matches!(e, Ev::Set { v, .. } if vsim::agent::set_fails(&case.flags, *v))),
+        "on_set-failed",
+    );
     v.class_if(
         case.ops.iter().any(|o| matches!(o, Op::Cmd { body, .. } if body.parse::<i64>().is_err())),
         "malformed-command",
